@@ -61,6 +61,8 @@ def attribute(problem, source, findings):
             continue
         if g.get("source_re") and not re.search(g["source_re"], source):
             continue
+        if g.get("nonascii_byte_offset") and not (problem.get("line_nonascii") and problem.get("col_is_byte_offset")):
+            continue  # outside the guard, or the implementation no longer behaves as the model predicts
         return f["id"]
     return None
 
@@ -119,6 +121,7 @@ def run(tier: str, replay: str | None = None):
     feats = {}
     value_pairs = 0
     ecases = []
+    ccases = []
     do_dispatch = False
     if replay:
         r = json.loads(Path(replay).read_text())
@@ -129,8 +132,11 @@ def run(tier: str, replay: str | None = None):
         if "value_seed" in inp:
             value_pairs = inp["value_pairs"]
             vseed = inp["value_seed"]
+            replay_matrix = inp.get("value_matrix", False)
         if "emit_case" in inp:
             ecases = [inp["emit_case"]]
+        if "column_case" in inp:
+            ccases = [inp["column_case"]]
         do_dispatch = "dispatch" in inp
     else:
         import gen_c12
@@ -138,13 +144,15 @@ def run(tier: str, replay: str | None = None):
         for i, c in enumerate(json.loads(CORPUS.read_text())["programs"]):
             programs.append({"name": f"corpus{i}", "source": c["source"], "enabled": c.get("enabled")})
             feats[f"corpus{i}"] = ["corpus:" + c["name"]]
-        n_gen = 500 if tier == "quick" else 4000
+        n_gen = 300 if tier == "quick" else 4000
         for i in range(n_gen):
             src, fs = gen_c12.gen_program(rng)
             programs.append({"name": f"gen{i}", "source": src, "enabled": gen_c12.gen_enabled(rng, all_codes)})
             feats[f"gen{i}"] = fs
-        value_pairs = 12000 if tier == "quick" else 120000
+        value_pairs = 8000 if tier == "quick" else 120000
         ecases = emit_cases(rng, 150 if tier == "quick" else 1500, 4 if tier == "quick" else 7)
+        alphabet = ["a", "Z", " ", "0", "\u00e4", "\u00df", "\u65e5", "\u20ac", "\U0001f600", "\u0416"]
+        ccases = ["".join(rng.choice(alphabet) for _ in range(rng.randrange(0, 12))) for _ in range(60 if tier == "quick" else 600)]
         do_dispatch = True
     vseed = locals().get("vseed", lib.seed() * 7 + 1)
 
@@ -155,10 +163,12 @@ def run(tier: str, replay: str | None = None):
     for k, sh in enumerate(shards):
         req = {"programs": sh}
         if value_pairs:
-            req["value_seed"] = vseed * 100 + k
+            req["value_seed"] = vseed if replay else vseed * 100 + k
             req["value_pairs"] = value_pairs // nshards if not replay else (value_pairs if k == 0 else 0)
         if k == 0:
+            req["value_matrix"] = bool(value_pairs) and (not replay or bool(locals().get("replay_matrix")))
             req["emit_cases"] = ecases
+            req["column_cases"] = ccases
             req["dispatch"] = do_dispatch
         reqs.append(req)
     with cf.ThreadPoolExecutor(max_workers=6) as ex:
@@ -229,7 +239,7 @@ def run(tier: str, replay: str | None = None):
         if fid:
             rep.known(fid, next(f["what"] for f in kf if f["id"] == fid))
             continue
-        rep.violation({"kind": "failing-input", "input": {"value_seed": vs, "value_pairs": vp}, "observed": pb,
+        rep.violation({"kind": "failing-input", "input": {"value_seed": vs, "value_pairs": vp, "value_matrix": vs % 100 == 0}, "observed": pb,
                        "expected": "the operation returns a result for well-formed values", "how_to_run": "./check C12 --replay <this file>"})
         if len(seen_v) >= 5:
             break
@@ -249,6 +259,17 @@ def run(tier: str, replay: str | None = None):
                     n_corr += 1
                     if decode_emit(m) != i:
                         corr.append(("Total.Emit.emit vs BaseNodeVisitor.show_error", {"emit_case": c}, i, decode_emit(m)))
+            impl_cols = outs[0].get("columns") or []
+            if ccases and impl_cols:
+                # the name follows "('" + text + "', " : 2 ASCII characters, the text, 3 ASCII characters
+                def widths(text):
+                    return [1, 1] + [len(ch.encode("utf-8")) for ch in text] + [1, 1, 1]
+                mv = lib.coq_eval("From Coq Require Import List. Import ListNotations.\nRequire Import PV.Total.Column.",
+                                  [f"reported_col {lib.clist([str(w) + '%nat' for w in widths(t)])} {len(t) + 5}%nat" for t in ccases], name="c12c")
+                for t, m, i in zip(ccases, mv, impl_cols):
+                    n_corr += 1
+                    if m != i:
+                        corr.append(("Total.Column.reported_col vs ast col_offset as reported by show_error", {"column_case": t}, i, m))
             if impl_disp:
                 classes = sorted(impl_disp["boolability"])
                 kinds = sorted(impl_disp["annotation"])
